@@ -324,6 +324,9 @@ func (p *Program) solveOne(dir string, idx int, o *Obligation, timeoutS int, all
 			outs = append(outs, r.backend+": "+strings.TrimSpace(firstLines(r.out, 3)))
 		}
 		o.Output = strings.Join(outs, "\n")
+		if o.Quant {
+			p.solveProjection(dir, idx, o, timeoutS)
+		}
 	}
 	go func() { wg.Wait() }()
 }
@@ -386,4 +389,36 @@ func (p *Program) solveAll(dir string, obls []*Obligation, timeoutS int, allSolv
 		}(i, o)
 	}
 	wg.Wait()
+}
+
+// solveProjection retries an undecided obligation with its quantified hypotheses removed. A model of
+// the projection is only a candidate (it may violate a dropped hypothesis); it is used to drive a
+// replay on the real code. An unsat projection discharges the obligation (fewer hypotheses).
+func (p *Program) solveProjection(dir string, idx int, o *Obligation, timeoutS int) {
+	proj := &Obligation{Name: o.Name, Goal: o.Goal}
+	for _, h := range o.Hyps {
+		if !hasQuantifier(h) {
+			proj.Hyps = append(proj.Hyps, h)
+		}
+	}
+	q := p.buildQuery(proj, true)
+	file := filepath.Join(dir, fmt.Sprintf("q%05d-proj.smt2", idx))
+	if os.WriteFile(file, []byte(q), 0o644) != nil {
+		return
+	}
+	t := timeoutS
+	if t > 10 {
+		t = 10
+	}
+	r := runSolver(context.Background(), solvers[0], file, t)
+	switch r.status {
+	case "unsat":
+		o.Status = "discharged"
+		o.Backend = r.backend + " (projection)"
+	case "sat":
+		o.Projected = true
+		o.ProjHyps = proj.Hyps
+		o.Model = parseModel(r.out)
+		o.Output += "\nprojection without quantified hypotheses: sat (candidate model)"
+	}
 }
